@@ -105,6 +105,10 @@ type Opts struct {
 	Names     []string // universe override (Probes)
 	Actions   []uint32 // action override
 	MaxGroups int
+	// NamedActionsOnly: group actions are the seven documented constants only (text / configuration forms cannot
+	// spell anything else). Otherwise about 1/8 of the groups carry an action with data bits (ERRNO|n, TRACE|n, TRAP|n)
+	// or user_notif: values the Go API accepts for groups and the compiler returns as they are.
+	NamedActionsOnly bool
 }
 
 // Policy draws a policy for arch by construction (no rejection).
@@ -175,6 +179,15 @@ func Policy(t *rapid.T, arch string, o Opts) spec.Policy {
 	}
 	for g := 0; g < ng; g++ {
 		grp := spec.Group{Action: act("action")}
+		if o.Actions == nil && !o.NamedActionsOnly && rapid.IntRange(0, 7).Draw(t, "actionData") == 0 {
+			base := []uint32{oracle.Const("SECCOMP_RET_ERRNO"), oracle.Const("SECCOMP_RET_ERRNO"), oracle.Const("SECCOMP_RET_TRACE"), oracle.Const("SECCOMP_RET_TRAP"), 0x7fc00000}[rapid.IntRange(0, 4).Draw(t, "actionDataBase")]
+			if base == 0x7fc00000 {
+				grp.Action = base
+			} else {
+				data := []uint32{1, 2, 2, 38, 0xfff, 0x1000, 0xfffe, 0xffff}[rapid.IntRange(0, 7).Draw(t, "actionDataBits")]
+				grp.Action = base | data
+			}
+		}
 		inGroup := map[string]bool{}
 		// unconditional names
 		nameClass := rapid.IntRange(0, 9).Draw(t, "nameClass")
